@@ -279,8 +279,33 @@ func checkMulti(idx int, mc multiCase, mode, buf int) {
 			}
 		}
 	}
-	mr := streams.NewMultiReaderCloser(readers...)
+	// the sources are handed over as a caller-owned slice (spread); the caller keeps using its slice:
+	// either it overwrites every element right away (the stream must not notice), or it looks at it
+	// after the stream has been consumed and closed (it must be untouched)
+	given := make([]io.Reader, len(readers), len(readers)+2)
+	copy(given, readers)
+	mr := streams.NewMultiReaderCloser(given...)
+	scribble := (idx+mode+buf)%2 == 0
+	if scribble {
+		for i := range given {
+			given[i] = poisonReader{}
+		}
+		_ = append(given, poisonReader{})
+		rec.Count("multi.caller_slice_overwritten_after_construction", 1)
+	}
 	got, err, stuck := consume(mr, mode, buf, 4*(len(want)+steps)+16)
+	defer func() {
+		if scribble {
+			return
+		}
+		for i := range given {
+			if given[i] != readers[i] {
+				rec.Violation(idx, "multi/caller-slice-modified/"+modeName(mode), fmt.Sprintf("element %d of the slice the caller passed to NewMultiReaderCloser was changed by the stream", i), nil)
+				return
+			}
+		}
+		rec.Count("multi.caller_slice_intact_checked", 1)
+	}()
 	ctx := func() map[string]any {
 		var ss []string
 		var cl []int
@@ -316,6 +341,13 @@ func checkMulti(idx int, mc multiCase, mode, buf int) {
 	}
 	rec.Count("multi.ok."+modeName(mode), 1)
 }
+
+// poisonReader is what a caller puts into its own slice after handing the sources over; nobody may read it.
+type poisonReader struct{}
+
+func (poisonReader) Read(p []byte) (int, error) { return 0, errPoison }
+
+var errPoison = errors.New("the stream read from an element the caller put into its own slice after construction")
 
 // ---------------------------------------------------------------- Tee
 
@@ -408,11 +440,11 @@ func checkTee(idx int, sp spec, srcClosable, sinkClosable bool, failAt int, mode
 // ---------------------------------------------------------------- plan
 
 type group struct {
-	kind     string // limit | multi | tee
-	N, L     int
-	maskLo   uint32
-	maskHi   uint32 // exclusive; exhaustive block of masks
-	sampled  int    // >0: that many seeded masks instead of a block
+	kind    string // limit | multi | tee
+	N, L    int
+	maskLo  uint32
+	maskHi  uint32 // exclusive; exhaustive block of masks
+	sampled int    // >0: that many seeded masks instead of a block
 }
 
 func plan() []group {
@@ -455,7 +487,7 @@ func TestCheck(t *testing.T) {
 	rec = mon.Open("C16")
 	defer rec.Close()
 	rec.Note("rule", "LimitReadCloser: every limit N in 0..16 x source length 0..N+3 x every composition of the source into read chunks (all compositions for lengths up to the tier's bound, seeded compositions above; see exhaustive_lengths) x EOF-with-last-data/EOF-alone x zero-length reads (none/before first/between/before EOF) x injected source error at every chunk position (with and without data) x consumer = Read loop with every buffer size 1..N+2, io.ReadAll, io.Copy. MultiReaderCloser: 1-4 scripted sources (closable/plain, one possibly failing) x the same consumers (io.Copy takes WriteTo). TeeReadCloser: every composition x closable/plain source and writer x writer failing at every offset. A case is one (component, parameters, script, consumer) tuple; tuples are enumerated without repetition, so distinct = evaluated; non-trivial = the source has at least one byte or a terminal error other than a bare EOF. Larger seeded streams (up to 200 KiB) on top.")
-	rec.Note("require", []string{"limit.oversize_rejected", "limit.within_limit", "multi.ok.Read", "multi.ok.io.Copy", "multi.ok.ReadAll", "tee.ok", "tee.writer_failure_checked", "limit.eof_with_n_plus_1th_byte"})
+	rec.Note("require", []string{"limit.oversize_rejected", "limit.within_limit", "multi.ok.Read", "multi.ok.io.Copy", "multi.ok.ReadAll", "multi.caller_slice_overwritten_after_construction", "multi.caller_slice_intact_checked", "tee.ok", "tee.writer_failure_checked", "limit.eof_with_n_plus_1th_byte"})
 	rec.Note("exhaustive_lengths", fmt.Sprintf("all compositions for source lengths 0..%d at every N (LimitReadCloser), 0..%d (TeeReadCloser)", mon.Pick(9, 15), mon.Pick(7, 11)))
 	gs := plan()
 	rec.Planned(len(gs))
